@@ -39,6 +39,10 @@ type Script struct {
 	// OnInterrupt > 0: instead of ignoring the client's interrupt signal the
 	// plugin handles it like a conventional program and exits with this status.
 	OnInterrupt int `json:"on_interrupt,omitempty"`
+	// Deaf: after phase 1 the plugin CLOSES ITS STANDARD INPUT and then sends
+	// all its steps without waiting for replies (it cannot read them): every
+	// reply the client owes is undeliverable.
+	Deaf bool `json:"deaf,omitempty"`
 }
 
 type StepLog struct {
